@@ -47,3 +47,18 @@ Proof.
       destruct (p_acc_int p); cbn in *; congruence. }
     split; [exact Hc|]. apply typed_params_limited; assumption.
 Qed.
+
+(* every combinator instance over the collection types limits and quota-checks what it accepts *)
+Lemma combinators_limited_b : forallb crow_ok combinators = true.
+Proof. vm_compute. reflexivity. Qed.
+
+Lemma combinators_limited : forall c, In c combinators ->
+  (c_acc_iter c = true -> c_limiting c = true) /\
+  (c_acc_sized c = true -> c_sized_refused c = true /\ c_sized_ok c = true /\ c_quota_ok c = true).
+Proof.
+  intros c Hin. pose proof (proj1 (forallb_forall crow_ok combinators) combinators_limited_b c Hin) as H.
+  unfold crow_ok in H. apply andb_true_iff in H as [H1 H2]. split.
+  - intro Ha. rewrite Ha in H1. exact H1.
+  - intro Ha. rewrite Ha in H2. cbn in H2. apply andb_true_iff in H2 as [H2 H3]. apply andb_true_iff in H2 as [H2 H4].
+    repeat split; assumption.
+Qed.
